@@ -28,8 +28,19 @@ Alpha(b) == {0, 1, 2, b, 255}
 MaxLenFor(b) == IF b <= 2 THEN 2 * b + 1 ELSE IF b = 3 THEN 6 ELSE 5
 UnpadCases == \A b \in SmallB : \A s \in SeqsUpTo(Alpha(b), MaxLenFor(b)) :
     Emit([fn |-> "unpad", s |-> s, a |-> <<b>>, out |-> IF UnPadOK(s, b) THEN <<1, UnPadLen(s, b)>> ELSE <<0, 0>>])
-PadCases == \A b \in {1, 2, 3, 4, 8, 16, 255} : \A n \in {1, 2, b - 1, b, b + 1, 2 * b, 2 * b + 1} :
-    n >= 1 => Emit([fn |-> "pad", s |-> <<>>, a |-> <<n, b>>, out |-> <<PadLen(n, b), n + PadLen(n, b)>>])
+PadCases == /\ \A b \in {1, 2, 3, 4, 8, 16, 255} : \A n \in {1, 2, b - 1, b, b + 1, 2 * b, 2 * b + 1} :
+                 n >= 1 => Emit([fn |-> "pad", s |-> <<>>, a |-> <<n, b>>, out |-> <<PadLen(n, b), n + PadLen(n, b)>>])
+            \* every block size 1..255 with every padding length 1..b (the shortest non-empty datum that needs it)
+            /\ \A b \in 1..255 : \A q \in 1..b :
+                 LET n == IF b - q >= 1 THEN b - q ELSE 2 * b - q IN
+                 Emit([fn |-> "pad", s |-> <<>>, a |-> <<n, b>>, out |-> <<PadLen(n, b), n + PadLen(n, b)>>])
+\* standalone un-padding of structured inputs for larger block sizes: nb blocks whose last byte is q, the run of q
+\* bytes written when it fits, corrupted at offset c from the end (0 = not corrupted)
+BigUnpadCases == \A b \in {5, 15, 16, 17, 18, 32, 33, 64, 128, 255} : \A nb \in 1..2 :
+    \A q \in {0, 1, 2, 15, 16, 17, 18, b - 1, b, b + 1, 255} : \A c \in {0, 2, 16, 17, 18, b} :
+    (q >= 0 /\ q <= 255 /\ c <= b * nb) =>
+    LET ok == q >= 1 /\ q <= b /\ (c = 0 \/ c > q) IN
+    Emit([fn |-> "bigunpad", s |-> <<>>, a |-> <<b, nb, q, c>>, out |-> IF ok THEN <<1, b * nb - q>> ELSE <<0, 0>>])
 \* round trip on the specification itself (checked by TLC)
 PadSane == \A b \in SmallB : \A d \in SeqsUpTo(Alpha(b), MaxLenFor(b) - 1) : d # <<>> => (UnPadOK(Pad(d, b), b) /\ UnPadLen(Pad(d, b), b) = Len(d))
 \* block sizes <= 0 and the empty datum are errors
@@ -60,6 +71,7 @@ GcmTamper == \A n \in {0, 1, 17} : \A nl \in {12, 16} : \A al \in {0, 5} :
 ASSUME PadSane
 ASSUME UnpadCases
 ASSUME PadCases
+ASSUME BigUnpadCases
 ASSUME PadErrCases
 ASSUME CbcUnpadCases
 ASSUME CbcCases
